@@ -21,6 +21,7 @@ def script_from_behaviour(beh):
             cur = dict(op="run", restart=(n == "StartRestart"), mode=dict(a["mode"]), nit=a["nit"], refine=[],
                        sched={}, listing=list(a["listing"]) if n == "StartRestart" else None, ri=a.get("ri", -1), batch=-1, pend=[],
                        start=st["start"])
+            cur["allow_arg"] = bool(a.get("allowarg", cur["mode"]["allow"])) if n == "StartFresh" else bool(cur["mode"]["allow"])
             ops.append(cur)
         elif n == "EndA":
             ops.append(dict(op="markref"))
@@ -64,6 +65,14 @@ def classes_of(ops_or_summary, world):
     nrest = sum(1 for o in ops_or_summary if isinstance(o, dict) and (o.get("restart") is True or o.get("run") == "restart"))
     if nrest >= 2:
         cl.add("two_restarts")
+    seq = [o for o in ops_or_summary if isinstance(o, dict)]
+    for a, b in zip(seq, seq[1:]):
+        ma = a.get("mode")
+        dumpa = ma.get("dump") if isinstance(ma, dict) else (ma is not None and "d" in ma)
+        fresh = a.get("restart") is False or a.get("run") == "fresh"
+        brest = b.get("restart") is True or b.get("run") == "restart"
+        if fresh and brest and dumpa and a.get("allow_arg") is False and a.get("nit") == 0:
+            cl.add("dump_without_allow_zero_first_leg_then_restart")
     for o in ops_or_summary:
         if not isinstance(o, dict):
             continue
@@ -108,10 +117,11 @@ def execute(ops, geo, workdir, adpt_fac=1, ncpu=2, klist_part=10):
         listing = o.get("listing")
         lf = listing_fn(listing) if listing is not None else None
         sched = o.get("sched_fn") or scripted_schedule(o.get("sched", {}))
-        if o["restart"] and not os.path.exists(os.path.join(w.kdir, "K_list.pickle")):
-            w.skipped_ops = len(ops) - j
+        if o["restart"] and not os.path.isdir(w.kdir):
+            w.skipped_ops = len(ops) - j      # nothing was ever stored (the script starts in the middle of a behaviour)
             break
-        res, err = w.run(o["nit"], parallel=m["par"], dump=m["dump"], allow=m["allow"], sym=m["sym"], restart=o["restart"],
+        # a restart that the specification allows is attempted even if the restart files are not there: then run() raises
+        res, err = w.run(o["nit"], parallel=m["par"], dump=m["dump"], allow=o.get("allow_arg", m["allow"]), sym=m["sym"], restart=o["restart"],
                          adpt_fac=adpt_fac, schedule=sched, ncpu=ncpu, listing_fn=lf, klist_part=klist_part,
                          restart_iteration=o.get("ri", -1))
         if err or w.private_gone:
@@ -129,7 +139,7 @@ def random_mode(rng, sym, allow_par=True):
     return dict(par=(rng.random() < 0.5 and allow_par), dump=d, allow=d or rng.random() < 0.6, sym=sym, restart=False)
 
 
-def execute_random(geo, workdir, rng, niter, adpt_fac=1, ncpu=2, allow_par=True, back=True):
+def execute_random(geo, workdir, rng, niter, adpt_fac=1, ncpu=2, allow_par=True, back=True, dump_noallow_zero=False):
     """an uninterrupted run (reference), then the same calculation stopped and restarted at random places (random
     modes, shuffled directory listings, sometimes restart_iteration going back); refinement choices are made by the
     code's own selection on pseudo-random priorities (a deterministic, tie-free function of the cell), the spec accepts
@@ -142,16 +152,17 @@ def execute_random(geo, workdir, rng, niter, adpt_fac=1, ncpu=2, allow_par=True,
     errs = []
     summary = []
 
-    def go(nit, m, restart=False, ri=-1, shuffle=False):
+    def go(nit, m, restart=False, ri=-1, shuffle=False, allow_arg=None):
+        allow_arg = m["allow"] if allow_arg is None else allow_arg
         def shuffled(files):
             f2 = list(files)
             rng.shuffle(f2)
             return f2
         lf = shuffled if shuffle else None
-        rec = dict(run="restart" if restart else "fresh", nit=nit, ri=ri,
+        rec = dict(run="restart" if restart else "fresh", nit=nit, ri=ri, allow_arg=bool(allow_arg),
                    mode="".join(k[0] for k in ("par", "dump", "allow", "sym") if m[k]))
         summary.append(rec)
-        res, err = w.run(nit, parallel=m["par"], dump=m["dump"], allow=m["allow"], sym=m["sym"], restart=restart,
+        res, err = w.run(nit, parallel=m["par"], dump=m["dump"], allow=allow_arg, sym=m["sym"], restart=restart,
                          adpt_fac=adpt_fac, schedule=random_schedule(rng, rng.random() < 0.5), ncpu=ncpu, listing_fn=lf,
                          klist_part=rng.choice([1, 2, 10]), restart_iteration=ri)
         if restart:
@@ -166,7 +177,12 @@ def execute_random(geo, workdir, rng, niter, adpt_fac=1, ncpu=2, allow_par=True,
         mB = random_mode(rng, sym, allow_par)
         mB["allow"] = True
         done = rng.randint(0, niter - 1)
-        err = go(done, mB)
+        aarg = True
+        if dump_noallow_zero:      # dump_results without allow_restart, stopped right after iteration 0
+            mB["dump"], done, aarg = True, 0, False
+        elif mB["dump"] and rng.random() < 0.5:
+            aarg = False           # restartable "for free": dump_results implies allow_restart
+        err = go(done, mB, allow_arg=aarg)
         steps = 0
         while err is None and steps < 4:
             steps += 1
